@@ -22,9 +22,9 @@ Hypothesis Hbrk : brk t = Some (lb, rb).
 Hypothesis Hlr : lb =? rb = false.
 Hypothesis Hlp : lb =? T13.PIPE = false.
 
-(* a bare word token: not a bracket, not the pipe, does not start with a quote character *)
+(* a bare word token: not a bracket, not the pipe when the pipe syntax is on, does not start with a quote character *)
 Definition bare_tok (w : str) : bool :=
-  negb (seq_eqb w [lb]) && negb (seq_eqb w [rb]) && negb (seq_eqb w [T13.PIPE])
+  negb (seq_eqb w [lb]) && negb (seq_eqb w [rb]) && negb (seq_eqb w [T13.PIPE] && pipe t)
   && match w with [] => false | c :: _ => negb (mem c (quotes t)) end.
 
 Fixpoint wf (x : tree) : bool :=
@@ -50,7 +50,7 @@ Proof.
 Qed.
 
 Lemma bare_facts w : bare_tok w = true ->
-  is_left t w = false /\ is_right t w = false /\ seq_eqb w [T13.PIPE] = false /\ handle_token named t w = Ok w.
+  is_left t w = false /\ is_right t w = false /\ seq_eqb w [T13.PIPE] && pipe t = false /\ handle_token named t w = Ok w.
 Proof.
   unfold bare_tok, is_left, is_right. rewrite Hbrk. intro H.
   apply andb_true_iff in H as [H H4]. apply andb_true_iff in H as [H H3]. apply andb_true_iff in H as [H1 H2].
@@ -102,7 +102,7 @@ Proof.
   - cbn [forallb] in Hwf. apply andb_true_iff in Hwf as [Wx Wl]. cbn [flat_map] in *.
     destruct x as [w|l'].
     + cbn [toks app] in *. destruct f; [inversion Hf|]. cbn [top]. apply len_tail in Hf.
-      destruct (bare_facts w Wx) as [B1 [B2 [B3 B4]]]. rewrite B3, B1, B2, B4. cbn [andb].
+      destruct (bare_facts w Wx) as [B1 [B2 [B3 B4]]]. rewrite B3, B1, B2, B4.
       rewrite IH; [|exact Wl|exact Hf]. cbn [rev]. rewrite <- app_assoc. reflexivity.
     + cbn [toks] in *. rewrite <- app_comm_cons in *. rewrite <- app_assoc in *. cbn [app] in *.
       destruct f; [inversion Hf|]. cbn [top]. apply len_tail in Hf.
@@ -112,6 +112,69 @@ Proof.
       rewrite Ql' by exact Hf.
       rewrite IH; [|exact Wl|apply len_suffix in Hf; exact Hf].
       cbn [rev]. rewrite <- app_assoc. reflexivity.
+Qed.
+
+(* ---- unbalanced brackets ---- *)
+(* the stream ends inside an open bracket: Missing "]" *)
+Lemma inside_unclosed l : forall f ret,
+  forallb wf l = true -> (length (flat_map toks l) < f)%nat ->
+  inside named t f (flat_map toks l) None ret = Raise SyntaxError.
+Proof.
+  destruct left_facts as [Hll [Hrl Hrr]].
+  induction l as [|x l IH]; intros f ret Hwf Hf.
+  - destruct f; [inversion Hf|]. reflexivity.
+  - cbn [forallb] in Hwf. apply andb_true_iff in Hwf as [Wx Wl]. cbn [flat_map] in *.
+    destruct x as [w|l'].
+    + cbn [toks app] in *. destruct f; [inversion Hf|]. cbn [inside]. apply len_tail in Hf.
+      destruct (bare_facts w Wx) as [B1 [B2 [B3 B4]]]. rewrite B2, B1, B4. apply IH; assumption.
+    + cbn [toks] in *. rewrite <- app_comm_cons in *. rewrite <- app_assoc in *. cbn [app] in *.
+      destruct f; [inversion Hf|]. cbn [inside]. apply len_tail in Hf. rewrite Hrl, Hll.
+      pose proof (P_all (Node l') Wx) as Ql'. cbn in Ql'. unfold Q in Ql'.
+      rewrite Ql' by exact Hf. apply IH; [exact Wl|apply len_suffix in Hf; exact Hf].
+Qed.
+
+Lemma top_unclosed l pre : forall f args,
+  forallb wf pre = true -> forallb wf l = true ->
+  (length (flat_map toks pre ++ [lb] :: flat_map toks l) < f)%nat ->
+  top named t f (flat_map toks pre ++ [lb] :: flat_map toks l) None args [] = Raise SyntaxError.
+Proof.
+  destruct left_facts as [Hll [Hrl Hrr]].
+  assert (Hp : seq_eqb [lb] [T13.PIPE] = false) by (cbn [seq_eqb]; rewrite Hlp; reflexivity).
+  induction pre as [|x pre IH]; intros f args Wpre Wl Hf.
+  - cbn [flat_map app] in *. destruct f; [inversion Hf|]. cbn [top]. apply len_tail in Hf.
+    rewrite Hp, Hll. cbn [andb]. rewrite inside_unclosed by assumption. reflexivity.
+  - cbn [forallb] in Wpre. apply andb_true_iff in Wpre as [Wx Wp]. cbn [flat_map] in *.
+    rewrite <- app_assoc in *. destruct x as [w|l'].
+    + cbn [toks app] in *. destruct f; [inversion Hf|]. cbn [top]. apply len_tail in Hf.
+      destruct (bare_facts w Wx) as [B1 [B2 [B3 B4]]]. rewrite B3, B1, B2, B4. apply IH; assumption.
+    + cbn [toks] in *. rewrite <- app_comm_cons in *. rewrite <- app_assoc in *. cbn [app] in *.
+      destruct f; [inversion Hf|]. cbn [top]. apply len_tail in Hf. rewrite Hp, Hll. cbn [andb].
+      pose proof (P_all (Node l') Wx) as Ql'. cbn in Ql'. unfold Q in Ql'.
+      rewrite Ql' by exact Hf. apply IH; [exact Wp|exact Wl|apply len_suffix in Hf; exact Hf].
+Qed.
+
+(* a closing bracket with nothing open: Spurious "]" *)
+Lemma top_spurious pre rest e : forall f args,
+  rb =? T13.PIPE = false -> forallb wf pre = true ->
+  (length (flat_map toks pre ++ [rb] :: rest) < f)%nat ->
+  top named t f (flat_map toks pre ++ [rb] :: rest) e args [] = Raise SyntaxError.
+Proof.
+  destruct left_facts as [Hll [Hrl Hrr]]. intros f args Hrp.
+  assert (Hp : seq_eqb [lb] [T13.PIPE] = false) by (cbn [seq_eqb]; rewrite Hlp; reflexivity).
+  assert (Hpr : seq_eqb [rb] [T13.PIPE] = false) by (cbn [seq_eqb]; rewrite Hrp; reflexivity).
+  assert (Hlrb : is_left t [rb] = false).
+  { unfold is_left. rewrite Hbrk. cbn [seq_eqb]. rewrite N.eqb_sym, Hlr. reflexivity. }
+  revert f args. induction pre as [|x pre IH]; intros f args Wpre Hf.
+  - cbn [flat_map app] in *. destruct f; [inversion Hf|]. cbn [top].
+    rewrite Hpr, Hlrb, Hrr. reflexivity.
+  - cbn [forallb] in Wpre. apply andb_true_iff in Wpre as [Wx Wp]. cbn [flat_map] in *.
+    rewrite <- app_assoc in *. destruct x as [w|l'].
+    + cbn [toks app] in *. destruct f; [inversion Hf|]. cbn [top]. apply len_tail in Hf.
+      destruct (bare_facts w Wx) as [B1 [B2 [B3 B4]]]. rewrite B3, B1, B2, B4. apply IH; assumption.
+    + cbn [toks] in *. rewrite <- app_comm_cons in *. rewrite <- app_assoc in *. cbn [app] in *.
+      destruct f; [inversion Hf|]. cbn [top]. apply len_tail in Hf. rewrite Hp, Hll. cbn [andb].
+      pose proof (P_all (Node l') Wx) as Ql'. cbn in Ql'. unfold Q in Ql'.
+      rewrite Ql' by exact Hf. apply IH; [exact Wp|apply len_suffix in Hf; exact Hf].
 Qed.
 
 End Brackets.
